@@ -30,17 +30,25 @@ fn stream_item(kind: u64, i: u64, salt: u64) -> u64 {
 /// 16 + k/256 is about eight times that mean plus 16 (an HLL_4 sketch whose list grows with the stream has lost
 /// its point).
 fn hll_image_size(ctx: &mut Ctx, img: &[u8], lg_k: u8, i: u64, what: &str) {
-    let k = 1usize << lg_k;
     {
         {
             ctx.evals(1);
             match spec::hll::decode(img) {
                 Err(e) => ctx.violation("HLL image does not decode", format!("{} lg_k {} after {} items: {}", what, lg_k, i, e)),
                 Ok((im, _)) => {
+                    // `lg_k` is what the configuration allows; the image's own lg_k decides its layout
+                    if im.lg_k > lg_k {
+                        ctx.violation(
+                            "HLL image size is not what mode and lg_k dictate",
+                            format!("{} after {} items: the image has lg_k {} but the configuration allows at most {}", what, i, im.lg_k, lg_k),
+                        );
+                        return;
+                    }
+                    let k = 1usize << im.lg_k;
                     let c = im.coupons.len();
                     let (want, cap_ok) = match im.mode {
                         0 => (8 + 4 * c, c <= 7),
-                        1 => (12 + 4 * c, c <= (3 * (k / 8)) / 4 + 1),
+                        1 => (12 + 4 * c, c <= (3 * (k / 8)) / 4),
                         _ => (
                             40 + match im.target_bits {
                                 4 => k / 2 + 4 * im.aux.len(),
@@ -71,20 +79,29 @@ fn hll_image_size(ctx: &mut Ctx, img: &[u8], lg_k: u8, i: u64, what: &str) {
     }
 }
 
+/// Prefix lengths at which sizes are measured: every prefix up to `dense`, then 2^j and 3 * 2^(j-1) (bounds that are
+/// tight one item past a threshold are not visible at powers of two alone).
+fn measure_here(i: u64, n: u64, dense: u64) -> bool {
+    i <= dense || i == n || i.is_power_of_two() || (i % 3 == 0 && (i / 3).is_power_of_two())
+}
+
 fn hll_stream(ctx: &mut Ctx, rng: &mut Rng, lg_k: u8, t: HllType, n: u64, kind: u64) {
     let mut s = HllSketch::new(lg_k, t);
     let salt = rng.next_u64();
-    let mut next = 1u64;
+    // every prefix while the sketch is small (list, set and the first array states), sparser afterwards
+    let dense = (3u64 << lg_k.saturating_sub(3)).clamp(64, 1500);
     for i in 0..=n {
-        if i == next || i == n {
-            next *= 2;
+        if measure_here(i, n, dense) {
             hll_image_size(ctx, &s.serialize(), lg_k, i, "sketch");
-            // the same stream seen through a union: the result in every type obeys the same size rule
-            if i >= 64 && (i == n || next.trailing_zeros() % 3 == 0) {
-                let mut u = HllUnion::new(lg_k);
-                u.update(&s);
-                for t2 in [HllType::Hll4, HllType::Hll6, HllType::Hll8] {
-                    hll_image_size(ctx, &u.to_sketch(t2).serialize(), lg_k, i, "union result");
+            // the same stream seen through unions: into the same lg_k and into a smaller lg_max_k (whose result must
+            // not be larger than lg_max_k allows); the result in every type obeys the same size rule
+            if i <= 40 || i == n || i.is_power_of_two() {
+                for lg_max in [lg_k, lg_k.saturating_sub(2).max(4)] {
+                    let mut u = HllUnion::new(lg_max);
+                    u.update(&s);
+                    for t2 in [HllType::Hll4, HllType::Hll6, HllType::Hll8] {
+                        hll_image_size(ctx, &u.to_sketch(t2).serialize(), lg_max, i, "union result");
+                    }
                 }
                 ctx.cover("hll_union_results_measured");
             }
@@ -99,8 +116,9 @@ fn theta_stream(ctx: &mut Ctx, rng: &mut Rng, lg_k: u8, rf: ResizeFactor, p: f32
     let mut s = ThetaSketch::builder().lg_k(lg_k).resize_factor(rf).sampling_probability(p).build();
     let salt = rng.next_u64();
     let k = 1usize << lg_k;
-    let mut next = 1u64;
     let mut worst = 0usize;
+    // a second sketch sees the same stream and is trimmed at every measurement point
+    let mut t = ThetaSketch::builder().lg_k(lg_k).resize_factor(rf).sampling_probability(p).build();
     for i in 0..=n {
         let r = s.num_retained();
         worst = worst.max(r);
@@ -108,8 +126,7 @@ fn theta_stream(ctx: &mut Ctx, rng: &mut Rng, lg_k: u8, rf: ResizeFactor, p: f32
             ctx.violation("theta retains more than 15/16 of 2k entries", format!("lg_k {} after {} items: {} retained", lg_k, i, r));
             break;
         }
-        if i == next || i == n {
-            next *= 2;
+        if measure_here(i, n, 40) {
             ctx.evals(1);
             let c = s.compact(true);
             let img = c.serialize();
@@ -122,20 +139,18 @@ fn theta_stream(ctx: &mut Ctx, rng: &mut Rng, lg_k: u8, rf: ResizeFactor, p: f32
             if v4.len() > img.len() {
                 ctx.violation("compressed theta image larger than the uncompressed one", format!("lg_k {} after {} items: {} > {}", lg_k, i, v4.len(), img.len()));
             }
-            if i % 3 == 0 {
-                // trim() leaves at most k
-                let mut t = ThetaSketch::builder().lg_k(lg_k).resize_factor(rf).sampling_probability(p).build();
-                for j in 0..i.min(6 * k as u64) {
-                    t.update(stream_item(kind, j, salt));
-                }
-                t.trim();
-                if t.num_retained() > k {
-                    ctx.violation("theta retains more than k entries after trim()", format!("lg_k {}: {}", lg_k, t.num_retained()));
-                }
+            // trim() leaves at most k, in exact mode as in estimation mode
+            let before = t.num_retained();
+            t.trim();
+            if t.num_retained() > k {
+                ctx.violation("theta retains more than k entries after trim()", format!("lg_k {} after {} items: {} retained before trim(), {} after", lg_k, i, before, t.num_retained()));
+                break;
             }
+            ctx.cover(if before > k { "theta_trim_effective" } else { "theta_trim_noop" });
         }
         if i < n {
             s.update(stream_item(kind, i, salt));
+            t.update(stream_item(kind, i, salt));
         }
     }
     ctx.cover_max("theta_max_retained_over_2k", worst as f64 / (2 * k) as f64);
